@@ -228,8 +228,9 @@ spif_ustr_init_from_fp(spif_ustr_t self, FILE *fp)
     self->s = (spif_charptr_t) MALLOC(self->size);
     self->s[0] = 0;
 
-    for (p = self->s; fgets((char *)p, buff_inc, fp); p += buff_inc) {
+    for (p = self->s; fgets((char *)p, buff_inc, fp); p = self->s + self->len) {
         if (!(end = (spif_charptr_t)strchr((const char *)p, '\n'))) {
+            self->len += strlen((const char *)p);
             self->size += buff_inc;
             self->s = (spif_charptr_t) REALLOC(self->s, self->size);
         } else {
